@@ -410,7 +410,14 @@ fn jarray_to_container(
         for (k, v) in terminating_obj {
             match k.as_str() {
                 "#f" => flags = as_i32(v)?,
-                "#n" => name = Some(as_str(v)?.to_string()),
+                "#n" => {
+                    // Named-only content is known by the key it is stored under
+                    let own_name = as_str(v)?;
+                    if name.is_none() {
+                        name = Some(own_name.to_string());
+                    }
+                }
+                "" => return Err(malformed("a name for named content")),
                 k => {
                     let named_content_item = jtoken_to_runtime_object(v, Some(k.to_string()))?;
 
